@@ -192,6 +192,35 @@ theorem band_ignores_other_planes {β : Type} (hd hd' : Hdu β) (cube : Nat)
   rw [← hn]
   rcases h3 with h | h <;> rw [h] <;> simp [hp]
 
+
+/-! ### Scaled inputs (BSCALE) and compressed inputs
+
+`load_image_band` multiplies the rows it has read by BSCALE; for a compressed file it first expands the
+file and then cuts the band out of the expanded image.  Both commute with the band cut. -/
+
+theorem slice_map {β γ : Type} (f : β → γ) (img : List β) (lo hi : Nat) :
+    Aegean.Model.C20.slice (img.map f) lo hi = (Aegean.Model.C20.slice img lo hi).map f := by
+  simp [Aegean.Model.C20.slice, List.map_take, List.map_drop]
+
+/-- **band_of_scaled_image**: cutting band `i` of `n` out of the stored rows and then applying any
+    per-row transformation `f` (multiplication by BSCALE) gives band `i` of `n` of the transformed
+    (physical) image: same rows, same NAXIS2, same CRPIX2 shift -/
+theorem band_of_scaled_image {β γ : Type} (f : β → γ) (img : List β) (i n : Nat) (hi : i < n) :
+    loadBand rowMin rowMax (img.map f) i n = .ok
+      { data := (Aegean.Model.C20.slice img (rowMin img.length n i) (rowMax img.length n i)).map f,
+        naxis2 := rowMax img.length n i - rowMin img.length n i,
+        crpix2Shift := -((rowMin img.length n i : Nat) : Int) } := by
+  rw [band_values (img.map f) i n hi, slice_map]
+  simp
+
+/-- **band_of_expanded_image**: for a compressed input the band is cut from `expand file` — whatever
+    `expand` is (C15), the bands of a compressed file tile the expanded image exactly as the bands of
+    an uncompressed file tile the stored image -/
+theorem bands_of_expanded_concat {β : Type} (expand : List β) (n : Nat) (hn : 0 < n) :
+    ((List.range n).map (fun i =>
+        Aegean.Model.C20.slice expand (rowMin expand.length n i) (rowMax expand.length n i))).flatten = expand :=
+  bands_concat expand n hn
+
 /-! ### Non-vacuity and the negation witness for the pinned float arithmetic -/
 
 example : rowMin 10 3 1 = 3 ∧ rowMax 10 3 1 = 6 ∧ rowMax 10 3 2 = 10 := by decide
